@@ -136,7 +136,11 @@ func (r *rig) checkSnapshot(s *Snap, limitsAfterRun bool) []violation {
 	curAcct = -1
 	for a, i := range idx {
 		if !hasPending[a] && raw.PendingNonce[i] != raw.StateNonce[i] {
-			fail("pnonce:not-state-nonce-when-empty", "account %d has no pending transaction, pendingNonces=%d, state nonce %d", i, raw.PendingNonce[i], raw.StateNonce[i])
+			dir := "above"
+			if raw.PendingNonce[i] < raw.StateNonce[i] {
+				dir = "below"
+			}
+			fail("pnonce:"+dir+"-state-nonce-when-empty", "account %d has no pending transaction, pendingNonces=%d, state nonce %d", i, raw.PendingNonce[i], raw.StateNonce[i])
 		}
 	}
 	// --- all == union of the lists; slots
